@@ -1,7 +1,12 @@
 (* fwditv_drv: forward analyzer model (engine + interval transformer) on textual CFG
    programs; same format as harness/cfgtext.hpp / fwditv.cpp.
+   Header options thr=<n> (max_thresholds) and live=0|1 (liveness pruning) select the model
+   fwd_run_full of Ana/FwdItvLive.v (thresholds collected per WTO cycle, dead variables
+   forgotten at the end of each block).  selfcheck=0: the table checker is not run on the
+   model's own tables (no MODEL-NOT-INDUCTIVE marker).
    Mode --validate: each line is "<case> ### <implementation answer>"; the Coq-verified
-   table checker (fwd_check) is run on the implementation's invariants. *)
+   table checker (fwd_check; fwd_check_full with the pruned transformer when live=1) is run
+   on the implementation's invariants. *)
 open Fwditv_model
 open Zio
 let n_of_int i = n_of_zarith (ZA.of_int i)
@@ -64,11 +69,11 @@ let state_of_string s =
         | [l; u] -> e := e_set !e (n_of_int i) (imk (bound_of_string (String.trim l)) (bound_of_string (String.trim u)))
         | _ -> failwith "bad state") parts;
     !e end
-type pcase = { prog : prog; nv : int; nb : int; opts : (string * string) list; init : env; asm : (int * env) list }
+type pcase = { prog : prog; nv : int; nb : int; ex : int; opts : (string * string) list; init : env; asm : (int * env) list }
 let parse_case toks =
   match split_on "|" toks with
-  | ("cfg" :: nb :: nv :: _ex :: optl) :: secs ->
-    let nb = int_of_string nb and nv = int_of_string nv in
+  | ("cfg" :: nb :: nv :: ex :: optl) :: secs ->
+    let nb = int_of_string nb and nv = int_of_string nv and ex = int_of_string ex in
     let opts = List.filter_map (fun o -> match String.index_opt o '=' with
         | Some i -> Some (String.sub o 0 i, String.sub o (i+1) (String.length o - i - 1)) | None -> None) optl in
     let blocks = Array.make nb [] and edges = ref [] and init = ref e_top and asm = ref [] in
@@ -80,17 +85,36 @@ let parse_case toks =
       | "A" :: b :: l -> let k = { t = Array.of_list l; p = 0 } in let cs = ref [] in while more k do cs := !cs @ [parse_cst k] done;
         asm := (int_of_string b, d_add !cs e_top) :: !asm
       | _ -> ()) secs;
-    { prog = { p_blocks = Array.to_list blocks; p_edges = !edges }; nv; nb; opts; init = !init; asm = !asm }
+    { prog = { p_blocks = Array.to_list blocks; p_edges = !edges }; nv; nb; ex; opts; init = !init; asm = !asm }
   | _ -> failwith "bad case"
 let opt c k d = try List.assoc k c.opts with Not_found -> d
 let asm_fun c = fun n -> (try Some (List.assoc (int_of_nat n) c.asm) with Not_found -> None)
+(* header options thr=<max_thresholds> and live=0|1: the configurations of Ana/FwdItvLive.v *)
+let thr_of c = int_of_string (opt c "thr" "0")
+let live_of c = opt c "live" "0" = "1"
+let exit_of c = if c.ex >= 0 then Some (nat_of_int c.ex) else None
+let plain c = thr_of c = 0 && not (live_of c)
 let run_model c =
   let delay = int_of_string (opt c "delay" "2") and desc = int_of_string (opt c "desc" "1") in
   let entry = int_of_string (opt c "entry" "0") in
   let use_asm = c.asm <> [] in
   match wto_build (p_graph c.prog) (nat_of_int 0) with
   | None -> None
-  | Some w -> fwd_run c.prog w (nat_of_int entry) (nat_of_int delay) (nat_of_int desc) use_asm (asm_fun c) (nat_of_int 400) c.init
+  | Some w ->
+    if plain c then
+      fwd_run c.prog w (nat_of_int entry) (nat_of_int delay) (nat_of_int desc) use_asm (asm_fun c) (nat_of_int 400) c.init
+    else begin
+      if live_of c && dead_table c.prog (exit_of c) = None then failwith "liveness-out-of-fuel";
+      fwd_run_full c.prog w (nat_of_int entry) (nat_of_int delay) (nat_of_int desc) (n_of_int (thr_of c)) (live_of c)
+        (exit_of c) use_asm (asm_fun c) (nat_of_int 400) c.init
+    end
+(* the verified table checker for the configuration of the case *)
+let check_tables c entry pre post =
+  if plain c then fwd_check c.prog (nat_of_int entry) (c.asm <> []) (asm_fun c) c.init pre post
+  else begin
+    if live_of c && dead_table c.prog (exit_of c) = None then failwith "liveness-out-of-fuel";
+    fwd_check_full (live_of c) (exit_of c) c.prog (nat_of_int entry) (c.asm <> []) (asm_fun c) c.init pre post
+  end
 let eval toks =
   let c = parse_case toks in
   match run_model c with
@@ -110,7 +134,7 @@ let eval toks =
             | [] -> "-"
             | l -> String.concat "" (List.map (fun (_, v) -> letter v) l) ^ ","))
       end else out in
-    if fwd_check c.prog (nat_of_int entry) (c.asm <> []) (asm_fun c) c.init e.e_pre e.e_post then out
+    if opt c "selfcheck" "1" = "0" || check_tables c entry e.e_pre e.e_post then out
     else out ^ " MODEL-NOT-INDUCTIVE"
 (* backward analysis: forward invariants (model of C01), then the engine on the reversed CFG *)
 let parse_final toks =
@@ -200,7 +224,7 @@ let validate toks answer =
     let pre n = let i = int_of_nat n in if i < c.nb then fst arr.(i) else EBot in
     let post n = let i = int_of_nat n in if i < c.nb then snd arr.(i) else EBot in
     let entry = int_of_string (opt c "entry" "0") in
-    if fwd_check c.prog (nat_of_int entry) (c.asm <> []) (asm_fun c) c.init pre post then "ok" else "FAIL"
+    if check_tables c entry pre post then "ok" else "FAIL"
   end
 let () =
   let args = Array.to_list Sys.argv in
